@@ -311,13 +311,37 @@ func (f *frame) pureCall(in *ssa.Call) {
 				bargs = append(bargs, dualOf(Val{T: bv}))
 				decl = append(decl, fmt.Sprintf("(%s Int)", bv))
 			}
+			x.qFacts = append(x.qFacts, nil)
 			body := x.evalPure(cl.Fn, bargs, cl.Bindings, [2]memView{f.mem[0], f.mem[1]}, f.depth+1)
+			facts := and(dedup(x.qFacts[len(x.qFacts)-1])...)
+			x.qFacts = x.qFacts[:len(x.qFacts)-1]
 			q := "forall"
 			if name == "exists" {
 				q = "exists"
 			}
 			for m := 0; m < 2; m++ {
 				r[m] = fmt.Sprintf("(%s (%s) %s)", q, strings.Join(decl, " "), body[m].T)
+			}
+			if facts != "true" && x.collectFacts {
+				// values loaded under the quantifier are well-typed for every value of the bound
+				// variable (every cell of a modelled array holds a well-typed value): a separate,
+				// closed assumption rather than a change of the clause itself
+				fact := fmt.Sprintf("(forall (%s) %s)", strings.Join(decl, " "), facts)
+				rest := fact
+				for _, bv := range bvs {
+					rest = strings.ReplaceAll(rest, bv, "")
+				}
+				if !strings.Contains(rest, "q!") {
+					x.pureFacts = append(x.pureFacts, fact)
+				}
+			}
+			setT(r[0], r[1])
+			return
+		case "psum":
+			// psum(f, s, n) = sum of f(s[i]) for 0 <= i < n  (uninterpreted, unfolded one step around each use)
+			var r [2]Term
+			for m := 0; m < 2; m++ {
+				r[m] = x.psumTerm(f, callee, args[0][m], args[1][m].T, args[2][m].T, m)
 			}
 			setT(r[0], r[1])
 			return
@@ -383,9 +407,28 @@ func (f *frame) pureCall(in *ssa.Call) {
 		setBoth(d)
 		return
 	}
+	if fc := x.L.FuncCon[funcKey(callee)]; fc != nil && fc.Pure {
+		var r [2]Term
+		okAll := true
+		for m := 0; m < 2; m++ {
+			var av []Val
+			for _, a := range args {
+				av = append(av, a[m])
+			}
+			t, ok := x.pureFuncApp(callee, av)
+			if !ok {
+				okAll = false
+			}
+			r[m] = t
+		}
+		if okAll {
+			setT(r[0], r[1])
+			return
+		}
+	}
 	// functions of the package used in specifications: inline when small and pure
 	if len(callee.Blocks) > 0 && callee.Pkg != nil && x.L.SSAPkgs[callee.Pkg.Pkg.Path()] != nil {
-		if fc := x.L.FuncCon[funcKey(callee)]; fc == nil || fc.Pure || fc.Inline {
+		if fc := x.L.FuncCon[funcKey(callee)]; fc == nil || fc.Inline {
 			setBoth(x.evalPure(callee, args, nil, [2]memView{f.mem[0], f.mem[1]}, f.depth+1))
 			return
 		}
@@ -396,8 +439,8 @@ func (f *frame) pureCall(in *ssa.Call) {
 }
 
 func (x *Exec) unboxAny(orig ssa.Value, v Val) Term {
-	if mi, ok := orig.(*ssa.MakeInterface); ok {
-		_ = mi
+	if mi, ok := orig.(*ssa.MakeInterface); ok && !types.IsInterface(mi.X.Type()) {
+		return x.unbox(mi.X.Type(), v.T)
 	}
 	return v.T
 }
@@ -406,6 +449,8 @@ func (f *frame) builtinPure(b *ssa.Builtin, in ssa.Value, av []Val) Term {
 	x := f.x
 	call := in.(ssa.CallInstruction).Common()
 	switch b.Name() {
+	case "ssa:deferstack":
+		return "0"
 	case "len":
 		t := call.Args[0].Type()
 		switch u := t.Underlying().(type) {
@@ -451,4 +496,58 @@ func (f *frame) builtinPure(b *ssa.Builtin, in ssa.Value, av []Val) Term {
 	}
 	x.abstract("builtin " + b.Name())
 	return x.havocPure("builtin", x.X.sortOf(in.Type()))
+}
+
+// psumTerm builds psum!k(n) for the summand function fv over slice s in memory
+// view m, and emits the one-step unfoldings around n (valid instances of the
+// recursive definition; no quantified axiom, hence no matching loop).
+func (x *Exec) psumTerm(f *frame, callee *ssa.Function, fv Val, s Term, n Term, m int) Term {
+	if fv.Cl == nil {
+		x.errorf("psum: summand must be a named spec function")
+		return "0"
+	}
+	sl, ok := callee.Signature.Params().At(1).Type().Underlying().(*types.Slice)
+	if !ok {
+		x.errorf("psum: second argument must be a slice")
+		return "0"
+	}
+	et := sl.Elem()
+	elemAt := func(i Term) Val {
+		pos := sx("+", sx("soff", s), i)
+		if isStruct(et) {
+			return Val{T: sx("elemref", sx("sbase", s), pos)}
+		}
+		c, srt := x.elemComp(et)
+		x.comp(c, srt)
+		return Val{T: sx("select", sx("select", f.mem[m].heapOf(c, srt), sx("sbase", s)), pos)}
+	}
+	body := func(i Term) Term {
+		v := elemAt(i)
+		d := x.evalPure(fv.Cl.Fn, []dual{{v, v}}, fv.Cl.Bindings, [2]memView{f.mem[m], f.mem[m]}, f.depth+1)
+		return d[0].T
+	}
+	key := "psum|" + body("q!key")
+	if x.psums == nil {
+		x.psums = map[string]string{}
+	}
+	fn, ok := x.psums[key]
+	if !ok {
+		fn = x.fresh("psum")
+		x.psums[key] = fn
+		x.emit("(declare-fun %s (Int) Int)", fn)
+		x.emit("(assert (= (%s 0) 0))", fn)
+		x.assumed["psum: finite sums are an uninterpreted function constrained by unfoldings of its recursive definition emitted at each use"] = false
+	}
+	if !strings.Contains(n, "q!") {
+		ukey := fn + "|" + n
+		if !x.psumUnfolded[ukey] {
+			if x.psumUnfolded == nil {
+				x.psumUnfolded = map[string]bool{}
+			}
+			x.psumUnfolded[ukey] = true
+			x.emit("(assert (=> (> %s 0) (= (%s %s) (+ (%s (- %s 1)) %s))))", n, fn, n, fn, n, body(sx("-", n, "1")))
+			x.emit("(assert (=> (>= %s 0) (= (%s (+ %s 1)) (+ (%s %s) %s))))", n, fn, n, fn, n, body(n))
+		}
+	}
+	return sx(fn, n)
 }
